@@ -303,6 +303,13 @@ pub fn classify(v: &View, f: &RawFrame, a: &EvAttr) -> Class {
             };
         }
     };
+    // RFC 9113 6.8: "After sending a GOAWAY frame, the sender can discard frames for streams initiated by the receiver with
+    // identifiers higher than the identified last stream" - whatever the subject does with them is its choice
+    if let Some(l) = v.goaway_sent {
+        if sid != 0 && sid > l && !v.subj_parity(sid) {
+            return Class::Unspecified;
+        }
+    }
     let st = state_of(v, sid);
     let forgotten = a.reset_forgotten && st == St::ResetBySubject;
     match parsed {
@@ -528,6 +535,7 @@ pub fn states() -> Vec<StateSpec> {
         s("s-block-in-progress", Server, false),
         s("s-goaway-sent", Server, false),
         s("s-goaway-received", Server, false),
+        s("s-goaway-final", Server, false),
         s("s-two-open", Server, true),
         s("s-open-5", Server, true),
         s("s-pushed", Server, true),
@@ -687,6 +695,21 @@ pub fn enter(t: &mut T2, s: &StateSpec) -> App {
                 c.graceful_shutdown();
             }
             t.conn_flag.wake_by_ref_pub();
+            t.drive(d);
+        }
+        "s-goaway-final" => {
+            // graceful shutdown completed its handshake: GOAWAY(2^31-1), PING, acknowledgement, GOAWAY(1); stream 1 still open
+            t.peer_request(1, "/a", false);
+            t.drive(d);
+            if let Conn::Server(c) = &mut t.conn {
+                c.graceful_shutdown();
+            }
+            t.conn_flag.wake_by_ref_pub();
+            t.drive(d);
+            let pings: Vec<[u8; 8]> = t.subject_frames().iter().filter_map(|f| if let Ok(Parsed::Ping { ack: false, payload }) = &f.parsed { Some(*payload) } else { None }).collect();
+            for p in pings {
+                t.peer_send(&wf::ping(p, true));
+            }
             t.drive(d);
         }
         "s-goaway-received" => {
